@@ -95,7 +95,7 @@ def validate_batch(run, programs, traces, label):
         res = require_ok(run_tlc("LayoutTrace", cfg="LayoutTrace", workers=1, env={"TRACE_FILE": path}, label=label, timeout=1200))
         run.add_tlc(res)
         rejected, accepted = {}, None
-        for line in res.tail.split("\n") + res.printed:
+        for line in res.printed:
             m = re.search(r'<<"REJECTED", (\d+), (\d+)>>', line)
             if m:
                 rejected[int(m.group(1)) - 1] = int(m.group(2))
